@@ -1,15 +1,82 @@
 from driver import Job
 
+_KEYS = ["missing", "empty", "wrong", "prefix", "suffix", "case", "correct", "number", "null", "object", "array"]
+_METHS = ["call", "unknown-service", "unknown-method", "malformed-name", "subscribe", "unsub-live", "unsub-dead",
+          "subscribe-badparams"]
+_TRANSPORTS = ["http", "ws", "ipc", "inproc"]
+_IDS = ["num", "str", "null", "float", "neg", "exp", "emptystr", "bool", "object", "array", "missing"]
+
+# The enumerated grammar G has 20548 requests per transport (S 6050 + B1 4400 + B2 2112 + B3 7744 + B4 242);
+# the counts below are functions of the grammar only (the seed changes key, ids, tokens and member order, not shapes).
+_G = 20548
+
+_floors = {
+    "grammar_cases": 4 * _G,             # G enumerated completely on all four transports (quick and thorough)
+    "part_R": (0, 2000000),              # random extension (thorough only)
+    "key_escaped": (0, 100000),
+    "batch_size_7": (0, 50000),
+    "batch_size_1": 2000, "batch_size_2": 30000, "batch_size_3": 7000, "batch_size_4": 11000, "single_size_1": 24000,
+    "strict_checked": 40000,             # elements for which the invalid-key error specifically was demanded
+    "rejected_invalid_key": 40000,
+    "keyed_served": 20000,
+    "live_delivery_verified": 1000,      # un-keyed unsubscribe attempts after which a pushed notification still arrived
+    "live_cancelled_with_key": 1000,     # keyed unsubscribe of the live subscription took effect
+}
+for _t in _TRANSPORTS:
+    _floors["t_" + _t] = _G
+    _floors["nokey_%s_single" % _t] = 5000
+    _floors["nokey_%s_batch" % _t] = 20000
+    _floors["keyed_served_%s_single" % _t] = 60
+    _floors["keyed_served_%s_batch" % _t] = 5000
+for _k in _KEYS:
+    _floors["key_" + _k] = 10000
+    for _m in _METHS:
+        _floors["kxm_%s_%s" % (_k, _m)] = 1000   # every key class x method class cell
+for _m in _METHS:
+    _floors["meth_" + _m] = 14000
+for _i in _IDS:
+    _floors["id_" + _i] = 2000
+
 SPEC = {
     "engine": "E2",
     "level": "exploration",
-    "technique": "probe-service monitor behind a real rpc.Server (key set), finite request grammar enumerated over HTTP / WebSocket / IPC / in-proc codecs",
-    "level_text": "placeholder",
-    "level_note": "placeholder",
-    "rule": "placeholder",
+    "technique": "probe-service monitor behind a real rpc.Server with a key, driven over HTTP, WebSocket, IPC and in-proc "
+                 "codecs with a completely enumerated finite request grammar (thorough: plus a random extension)",
+    "level_text": "Every request of a finite grammar (singles: 11 key classes x 50 method/params forms x 11 id kinds; batches of "
+                  "1..4 with the probed element at every position among keyed fillers, every correct/non-correct key pattern, every "
+                  "ordered pair of key-class x method-class elements, every pair of id kinds) is sent to the real server through "
+                  "each of the four transports; for every element without the exact key the probe's per-token and global counters, "
+                  "the live subscription's Err() channel, a notification pushed through the live subscription, and the response "
+                  "element are checked. Exhaustive for that grammar (flag 'exhaustive' in the quick tier; the thorough tier repeats "
+                  "it and adds 2,000,000 random requests with further key mutations, names, envelopes and batch sizes up to 7); "
+                  "not a proof for requests outside it.",
+    "level_note": "trusted: Go's net/http, x/net/websocket client, encoding/json on the harness side; the probe service; the "
+                  "classification of a generated element as keyed / properly typed / otherwise well-formed is by construction of "
+                  "the generator, not by re-parsing",
+    "rule": "case = one request element (evaluations counts elements; counter 'requests' counts messages). distinct_nontrivial = "
+            "distinct (transport, single|batch, envelope, per-element (key class, method form, id kind)) shapes; every shape "
+            "contains at least one element and is sent to the real server, so none is trivial",
+    "exhaustive": lambda tier: tier == "quick",
     "jobs": [
         Job("gate", "rpc", "^TestVerifC19ApiKeyGate$", shards=(4, 8), timeout=(600, 3600)),
     ],
-    "floors": {},
-    "assumptions": [],
+    "floors": _floors,
+    "assumptions": [
+        "'carries exactly that key' = the element's JSON member \"key\" is a JSON string equal to the configured key "
+        "(an escaped spelling of the same string counts as the key; other members such as \"extra\":{\"key\":...} do not)",
+        "'otherwise well-formed' = key absent or a string, valid id (string/number/null), method a string service_method with a "
+        "resolvable-looking name (existing or unknown), usual params; for those the invalid-key error (-32800) is demanded, "
+        "for every other element without the key any error answer suffices",
+        "'still served' is demanded for elements with the key only when the message was answered element by element; a batch "
+        "containing an oddly typed element (non-string key or method, invalid/missing id, unparsable subscribe params, "
+        "unusual jsonrpc member) may be rejected as a whole - then only 'nothing ran, an error came back' is demanded; a batch "
+        "whose elements are all properly typed must not be rejected as a whole when it contains an element with the key",
+        "a message the server cannot read makes it close that client's own persistent connection (and with it the "
+        "subscriptions of that connection); this is connection teardown, not an unsubscription: the verdict uses the "
+        "subscription's Err() channel, which is closed exactly when an unsubscribe was executed",
+        "no verdict depends on elapsed time: a missing answer / notification within 30 s is recorded as inconclusive",
+        "WS and IPC are monitored on a Server constructed with the key (Server.WebsocketHandler, ipcListen+ServeListener, "
+        "ServeCodec). The node itself only starts the HTTP endpoint; rpc.StartWSEndpoint / StartIPCEndpoint (unused by the "
+        "node) construct their server with an empty key and are outside this monitor",
+    ],
 }
